@@ -92,6 +92,10 @@ type NodeEvent struct {
 	K     int    `json:"k,omitempty"`      // deliver index or number of batch writes that survive
 	SkewS int64  `json:"skew_s,omitempty"` // wall-clock skew applied before this node executes (seconds)
 	JumpS int64  `json:"jump_s,omitempty"` // wall-clock jump in the middle of the block (seconds)
+	// Proposal: what a validator does before executing a block: "" nothing (a non-validating full
+	// node), "process" ProcessProposal (every validator), "prepare" PrepareProposal+ProcessProposal
+	// (the proposer). The responses are not judged; the calls must not influence execution.
+	Proposal string `json:"proposal,omitempty"`
 }
 
 // QuerySpec is one piece of query noise / list query exercised at a block boundary or mid-block.
@@ -106,12 +110,34 @@ type QuerySpec struct {
 	MidTx  int    `json:"mid_tx,omitempty"` // issue before the k-th tx (0 = at block start after BeginBlock)
 }
 
+// NoiseSpec is one call on a non-consensus ABCI surface of the *reference* node that the replicas
+// do not receive: CometBFT runs the mempool, query and proposal connections next to consensus, and
+// none of them may influence what the chain computes.
+//
+//	simulate    gas simulation (/app/simulate) of the Tx-th transaction of the block
+//	recheck     CheckTx (type Recheck) of the Tx-th transaction
+//	prepare     PrepareProposal for the block's transactions (app-side mempool selection + ante)
+//	process     ProcessProposal for the block's transactions (ante of every tx on a throw-away state)
+//	info        Info
+//	store       raw store query with proof (/store/<module>/key)
+//	hist        gRPC query against an earlier height
+//
+// Pos: -2 before BeginBlock, k>=0 before the k-th DeliverTx (k = number of txs: after the last),
+// -1 after EndBlock (before Commit). Commit itself is never interleaved (CometBFT locks it).
+type NoiseSpec struct {
+	Kind string `json:"kind"`
+	Pos  int    `json:"pos"`
+	Tx   int    `json:"tx,omitempty"`
+	N    uint64 `json:"n,omitempty"`
+}
+
 // BlockSpec is one block of the history.
 type BlockSpec struct {
 	DtMs    int64       `json:"dt_ms"`
 	Txs     []TxSpec    `json:"txs,omitempty"`
 	Nodes   []NodeEvent `json:"nodes,omitempty"`
 	Queries []QuerySpec `json:"queries,omitempty"`
+	Noise   []NoiseSpec `json:"noise,omitempty"`
 	Export  bool        `json:"export,omitempty"` // export/import fork taken after this block
 }
 
